@@ -777,6 +777,11 @@ def apply_as_grid_ufunc(
             dask,
             **kwargs,
         )
+        # every output has to be padded, also when there are more outputs than inputs
+        # (`other_component` holds one entry per input)
+        other_component_of_outputs = list(other_component) + [None] * (
+            len(unpadded_results) - len(other_component)
+        )
         results = _pad_then_rechunk(
             unpadded_results,
             grid,
@@ -784,7 +789,7 @@ def apply_as_grid_ufunc(
             boundary_width_real_axes,
             boundary,
             fill_value,
-            other_component,
+            other_component_of_outputs,
         )
 
     # TODO add option to trim result if not done in ufunc
